@@ -61,6 +61,8 @@ type WorkerOut struct {
 	Samples    []json.RawMessage `json:"samples"`
 	Seeds      []uint64          `json:"seeds"`
 	WallMS     int64             `json:"wall_ms"`
+	Rule       string            `json:"rule"`
+	AllDigests []string          `json:"all_digests,omitempty"`
 }
 
 func envInt(k string, def int) int {
@@ -155,7 +157,7 @@ func TestCheck(t *testing.T) {
 	budget := time.Duration(envInt("HSIM_BUDGET_MS", 10000)) * time.Millisecond
 	maxRuns := envInt("HSIM_MAXRUNS", 1<<30)
 	known := loadKnown()
-	out := &WorkerOut{Property: prop, Stats: map[string]int{}, Triggers: map[string]int{}, Known: map[string]int{}, Other: map[string]int{}}
+	out := &WorkerOut{Property: prop, Rule: spec.Rule, Stats: map[string]int{}, Triggers: map[string]int{}, Known: map[string]int{}, Other: map[string]int{}}
 	nt := map[string]bool{}
 	states := map[string]bool{}
 	blocks := map[string]bool{}
@@ -164,6 +166,9 @@ func TestCheck(t *testing.T) {
 		seed := simrt.Mix(base, fmt.Sprintf("%s/%d", prop, i))
 		sc, res := runOne(t, spec, seed, tier)
 		out.Runs++
+		if os.Getenv("HSIM_DIGESTS") != "" {
+			out.AllDigests = append(out.AllDigests, res.Digest)
+		}
 		if len(out.Seeds) < 8 {
 			out.Seeds = append(out.Seeds, seed)
 		}
@@ -203,6 +208,10 @@ func TestCheck(t *testing.T) {
 				wv.Scenario, wv.ShrinkRuns = small, n
 				if sv != nil {
 					wv.Violation = *sv
+				}
+				// the digest a replay must reproduce is the one of the minimised scenario
+				if again := RunScenario(t, small); again != nil {
+					wv.Digest = again.Digest
 				}
 			}
 			out.Violations = append(out.Violations, wv)
